@@ -772,6 +772,8 @@ func (r *seqRun) exec(steps []Step) bool {
 			switch {
 			case r.opnd != nil && len(call.Args) == 1 && r.opnd(call.Args[0]) && trustedSorts[call.Fun.FullName()] != "":
 				// the trusted sort permutes the operand in place: its entries are symbolic, $s[j] now names the j-th in sorted order
+			case call.Fun.FullName() == "sort.IntsAreSorted" && len(call.Args) == 1:
+				// a pure question (its answer is a condition of the path)
 			case call.Fun.FullName() == "sort.Ints" && len(call.Args) == 1:
 				if tv, ok := call.Args[0].(TVar); ok {
 					if a, ok := r.intArgs[tv.Obj]; ok {
@@ -949,7 +951,17 @@ func (r *seqRun) feasible(p *Path, upTo int) (bool, bool) {
 		if st.Kind != "cond" {
 			continue
 		}
-		e := &termEnv{hook: r.intHook()}
+		e := &termEnv{hook: r.intHook(), bhook: func(t Term) (bool, bool) {
+			// sort.IntsAreSorted(indexes): decided on the index list as it is now
+			if call, ok := t.(TCall); ok && call.Fun != nil && call.Fun.FullName() == "sort.IntsAreSorted" && len(call.Args) == 1 {
+				if tv, ok := call.Args[0].(TVar); ok {
+					if a, ok := r.intArgs[tv.Obj]; ok {
+						return sort.SliceIsSorted(a, func(i, j int) bool { return a[i] < a[j] }), true
+					}
+				}
+			}
+			return false, false
+		}}
 		v, ok := e.bool(st.Cond.T)
 		if !ok {
 			r.fail("condition outside the vocabulary: " + r.c.termStr(st.Cond.T) + " (" + e.fail + ")")
